@@ -179,7 +179,8 @@ fn run_group<G: VariableBaseMSM>(op: &str, a: &[Arg], bases: Vec<G::MulBase>, ou
                     if idx < n && sc[idx] == G::ScalarField::from(0u64) { sc[idx] = pr[1]; }
                 }
             }
-            let bl: Vec<_> = (0..n).map(|i| bases[i % bases.len()]).collect();
+            let extra = if a[5].len() > 1 { to_usize(&a[5][1]) } else { 0 };
+            let bl: Vec<_> = (0..n + extra).map(|i| bases[i % bases.len()]).collect();
             out(&G::msm_chunks(&bl.as_slice(), &sc.as_slice()))
         },
         "chunked" => {
